@@ -30,27 +30,46 @@ EXTENDS Integers, Sequences, FiniteSets
 (* x86_64 Linux (asserted by the driver), i.e. the LP64 System V ABI.       *)
 (* wchar_t of the i386 System V ABI is "long" for gcc and "int" for clang    *)
 (* (same size and sign); wcharTypeOpen marks that its C typedef target is    *)
-(* compiler-specific there.                                                 *)
+(* compiler-specific there.  msvc: the platform's compiler is Microsoft's   *)
+(* (documented deviations from ISO are left open, see CLit.tla).            *)
 
 LP64 == [short |-> 2, int |-> 4, long |-> 8, llong |-> 8, ptr |-> 8, float |-> 4, double |-> 8, ldouble |-> 16,
          sizeT |-> "ulong", ptrdiffT |-> "long", wcharT |-> "int", charSigned |-> TRUE,
-         triple |-> "x86_64-linux-gnu", wcharTypeOpen |-> FALSE]
+         triple |-> "x86_64-linux-gnu", wcharTypeOpen |-> FALSE, msvc |-> FALSE]
 ILP32 == [short |-> 2, int |-> 4, long |-> 4, llong |-> 8, ptr |-> 4, float |-> 4, double |-> 8, ldouble |-> 12,
           sizeT |-> "uint", ptrdiffT |-> "int", wcharT |-> "int", charSigned |-> TRUE,
-          triple |-> "i386-linux-gnu", wcharTypeOpen |-> TRUE]
+          triple |-> "i386-linux-gnu", wcharTypeOpen |-> TRUE, msvc |-> FALSE]
 WIN32 == [short |-> 2, int |-> 4, long |-> 4, llong |-> 8, ptr |-> 4, float |-> 4, double |-> 8, ldouble |-> 8,
           sizeT |-> "uint", ptrdiffT |-> "int", wcharT |-> "ushort", charSigned |-> TRUE,
-          triple |-> "i386-pc-windows-msvc", wcharTypeOpen |-> FALSE]
+          triple |-> "i386-pc-windows-msvc", wcharTypeOpen |-> FALSE, msvc |-> TRUE]
 WIN64 == [short |-> 2, int |-> 4, long |-> 4, llong |-> 8, ptr |-> 8, float |-> 4, double |-> 8, ldouble |-> 8,
           sizeT |-> "ullong", ptrdiffT |-> "llong", wcharT |-> "ushort", charSigned |-> TRUE,
-          triple |-> "x86_64-pc-windows-msvc", wcharTypeOpen |-> FALSE]
+          triple |-> "x86_64-pc-windows-msvc", wcharTypeOpen |-> FALSE, msvc |-> TRUE]
 
-PlatformNames == {"native", "unix32", "unix64", "win32A", "win32W", "win64"}
+(* Generated platform files (cppcheck --platform=<file>.xml, format of man/manual.md "Platform"; C10):    *)
+(* a 16-bit-int model (= clang's msp430 target), an ILP32 model with unsigned plain char (= clang's         *)
+(* arm-none-eabi) and an ILP64 model (8-byte int, Cray-like) that no installed compiler target implements:  *)
+(* triple = "" means the specification is the only witness there.                                          *)
+GEN16 == [short |-> 2, int |-> 2, long |-> 4, llong |-> 8, ptr |-> 2, float |-> 4, double |-> 8, ldouble |-> 8,
+          sizeT |-> "uint", ptrdiffT |-> "int", wcharT |-> "int", charSigned |-> TRUE,
+          triple |-> "msp430-elf", wcharTypeOpen |-> FALSE, msvc |-> FALSE]
+GENARM == [short |-> 2, int |-> 4, long |-> 4, llong |-> 8, ptr |-> 4, float |-> 4, double |-> 8, ldouble |-> 8,
+           sizeT |-> "uint", ptrdiffT |-> "int", wcharT |-> "uint", charSigned |-> FALSE,
+           triple |-> "arm-none-eabi", wcharTypeOpen |-> FALSE, msvc |-> FALSE]
+GENILP64 == [short |-> 2, int |-> 8, long |-> 8, llong |-> 8, ptr |-> 8, float |-> 4, double |-> 8, ldouble |-> 16,
+             sizeT |-> "ulong", ptrdiffT |-> "long", wcharT |-> "int", charSigned |-> FALSE,
+             triple |-> "", wcharTypeOpen |-> TRUE, msvc |-> FALSE]
+
+BuiltinPlatforms == {"native", "unix32", "unix64", "win32A", "win32W", "win64"}
+GeneratedPlatforms == {"gen16", "genarm", "genilp64"}
 Platform(name) ==
   CASE name \in {"native", "unix64"} -> LP64
     [] name = "unix32" -> ILP32
     [] name \in {"win32A", "win32W"} -> WIN32
     [] name = "win64" -> WIN64
+    [] name = "gen16" -> GEN16
+    [] name = "genarm" -> GENARM
+    [] name = "genilp64" -> GENILP64
 
 --------------------------------------------------------------------------
 (* Types *)
